@@ -49,7 +49,22 @@ static void *vp_memset_typed(void *p, int c, size_t n)
 #undef mm_calloc
 #define mm_calloc(n, sz) event_mm_calloc_((n), (sz))
 #define mm_realloc(p, sz) event_mm_realloc_((p), (sz))
+/* epoll.c's two allocations, typed (struct epollop, struct epoll_event[32]) */
+static void *vp_calloc_epoll(size_t n, size_t sz);
+#undef mm_calloc
+#define mm_calloc(n, sz) vp_calloc_epoll((n), (sz))
 #include "epoll.c"
+#undef mm_calloc
+#define mm_calloc(n, sz) event_mm_calloc_((n), (sz))
+static void *vp_calloc_epoll(size_t n, size_t sz)
+{
+	void *q;
+	if (n == 1 && sz == sizeof(struct epollop)) q = calloc(1, sizeof(struct epollop));
+	else if (n == INITIAL_NEVENT && sz == sizeof(struct epoll_event)) q = calloc(INITIAL_NEVENT, sizeof(struct epoll_event));
+	else q = calloc(n, sz);
+	__CPROVER_assume(q != NULL);
+	return q;
+}
 #define VP_HAVE_SIGNAL_C
 #define VP_HAVE_EVUTIL_C
 /* ---- evutil helpers on the kernel model's descriptor table ------------------- */
@@ -130,7 +145,7 @@ static void vp_on_wait(int kind)
 	int k, fd;
 	struct epollop *op = base->evbase;
 	(void)kind;
-	if (vp_k_forked && vp_k_snap_epfd == old_epfd) { waits_on_old++; return; }
+	if (vp_k_forked && vp_k_inst_of(vp_k_snap_epfd) != 1) { waits_on_old++; return; }
 	waits_on_new++;
 	k = vp_k_inst_of(op->epfd);
 	VP_ASSERT(k >= 0 && vp_k_snap_epfd == op->epfd, "C11: the loop waits on the base's current epoll instance");
@@ -151,7 +166,7 @@ static void check_after_reinit(int old_pair0, int old_pair1, int old_notify0)
 {
 	struct epollop *op = base->evbase;
 	int k = vp_k_inst_of(op->epfd), fd;
-	VP_ASSERT(k == 1 && op->epfd != old_epfd, "C11: the child has its own, new epoll instance");
+	VP_ASSERT(k == 1, "C11: the child has its own, new epoll instance (the descriptor number may be the recycled one)");
 	/* parent's registrations untouched */
 	VP_ASSERT(vp_kep[0].ctl_calls == vp_k_parent_ctl[0], "C11: no epoll_ctl on the parent's (shared) epoll instance after the fork");
 	for (fd = 0; fd < VP_NFD; fd++)
@@ -244,6 +259,10 @@ void harness_reinit(void)
 	VP_ASSERT(vp_k_close_ebadf == 0, "C11: event_reinit closes a descriptor number it has already closed (double close; another thread's new descriptor could be hit)");
 #endif
 
+#ifdef VP_STOP_AFTER_REINIT
+	VP_WITNESS("event_reinit returned in the child");
+	return;
+#endif
 	/* ---- the events keep working in the child ---- */
 	vp_pipe_rfd = base->sig.ev_signal_pair[0]; vp_pipe_wfd = base->sig.ev_signal_pair[1];
 	if ((VP_ADDED) & 4) {
